@@ -9,14 +9,16 @@ for f in sorted(glob.glob("/verif/coq/Props/C*.v")):
     src = open(f).read()
     out.append("### %s" % pid)
     pos = 0
-    for m in re.finditer(r"^Theorem\s+(\w+)\s*:", src, re.M):
+    first = True
+    for m in re.finditer(r"^(?:Theorem|Example)\s+(\w+)\s*:", src, re.M):
         chunk = src[pos:m.start()]
         pos = m.end()
         comments = re.findall(r"\(\*\*(.*?)\*\)", chunk, re.S)
         doc = " ".join(comments[-1].split()) if comments else ""
         if doc.startswith(pid + " "):
             doc = ""
-        out.append("* `%s` — %s" % (m.group(1), doc if doc else "(continuation of the previous item)"))
+        out.append("* `%s` — %s" % (m.group(1), doc if doc else ("(no comment)" if first else "(continuation of the previous item)")))
+        first = False
     out.append("")
 p = "/verif/DESIGN.md"
 s = open(p).read()
